@@ -665,3 +665,27 @@ pub fn guess_is_pin(ty: &syn::Type) -> bool {
 
     false
 }
+
+/// Replace every `self` token (at any nesting depth) with the given tokens.
+pub fn replace_self_tokens(
+    tokens: proc_macro2::TokenStream,
+    replacement: &proc_macro2::TokenStream,
+) -> proc_macro2::TokenStream {
+    tokens
+        .into_iter()
+        .flat_map(|tree| -> proc_macro2::TokenStream {
+            match tree {
+                proc_macro2::TokenTree::Ident(ident) if ident == "self" => replacement.clone(),
+                proc_macro2::TokenTree::Group(group) => {
+                    let mut new_group = proc_macro2::Group::new(
+                        group.delimiter(),
+                        replace_self_tokens(group.stream(), replacement),
+                    );
+                    new_group.set_span(group.span());
+                    proc_macro2::TokenTree::Group(new_group).into()
+                }
+                other => other.into(),
+            }
+        })
+        .collect()
+}
